@@ -472,15 +472,12 @@ where
         feature_class: u64,
         only_baked: bool,
     ) -> (TrackDistanceOk<OA>, TrackDistanceErr<OA>) {
-        let tracks_vec = self.fetch_tracks(tracks);
+        let tracks_vec = tracks
+            .iter()
+            .flat_map(|track_id| self.get_store(*track_id as usize).get(track_id).cloned())
+            .collect::<Vec<_>>();
 
-        let res = self.foreign_track_distances(tracks_vec.clone(), feature_class, only_baked);
-
-        for t in tracks_vec {
-            self.add_track(t).unwrap();
-        }
-
-        res
+        self.foreign_track_distances(tracks_vec, feature_class, only_baked)
     }
 
     /// returns the store shard for id
